@@ -30,7 +30,9 @@ def _assert(cond_code: list, tag: str) -> list:
 def build_contract():
     tiny = assemble([("PUSH", 1), ("PUSH", 0), "RETURN"])  # init code deploying 1 byte of code
     target_rt = assemble([("PUSH", 1), ("PUSH", 5), "SSTORE", "STOP"])  # the invariant target: any call writes its own slot 5
-    target = Contract("Tgt", [Fn("poke()", [("PUSH", 1), ("PUSH", 5), "SSTORE", "STOP"])], filename="src/Tgt.sol")
+    # (two state-changing paths: the frontier of an invariant test then has sibling states)
+    target = Contract("Tgt", [Fn("poke(uint256)", arg(0) + [("PUSH", 1), "AND", ("PUSHL", "odd"), "JUMPI", ("PUSH", 1), ("PUSH", 5), "SSTORE", "STOP",
+                                                           ("LABEL", "odd"), ("PUSH", 2), ("PUSH", 5), "SSTORE", "STOP"])], filename="src/Tgt.sol")
     tinit = target.creation()
     # setUpSymbolic(address a): a symbolic address is part of the post-setUp state (slot 3); C1 returns 1, C2 returns 2
     def ret_const(name, v):
@@ -79,8 +81,10 @@ def build_contract():
     # keccak(x) == keccak(5) && x != 5  =>  Panic(1)
     test_fns.append(Fn("check_hash_b(uint256)", arg(0) + [("PUSH", 0x240), "MSTORE", ("PUSH", 32), ("PUSH", 0x240), "SHA3"] + k5 + ["EQ", "ISZERO", ("PUSHL", "hb_ok"), "JUMPI"]
                        + arg(0) + [("PUSH", 5), "EQ", ("PUSHL", "hb_ok"), "JUMPI"] + panic(1) + [("LABEL", "hb_ok"), "STOP"]))
-    test_fns.append(Fn("invariant_a()", _assert(s1_is_1, "ia") + ["STOP"]))
-    test_fns.append(Fn("invariant_b()", _assert(s1_is_1, "ib1") + _assert(s0_is_7, "ib0") + ["STOP"]))
+    # (time does not run backwards: the timestamp of every frontier state is at least setUp's)
+    time_ok = [("PUSH", 1), "TIMESTAMP", "LT", "ISZERO"]
+    test_fns.append(Fn("invariant_a()", _assert(s1_is_1, "ia") + _assert(time_ok, "iat") + ["STOP"]))
+    test_fns.append(Fn("invariant_b()", _assert(s1_is_1, "ib1") + _assert(s0_is_7, "ib0") + _assert(time_ok, "ibt") + ["STOP"]))
     c = Contract("IsoT", test_fns, data=[("MARK", "tinit"), ("RAW", tinit), ("MARK", "tiny"), ("RAW", tiny), ("MARK", "c1"), ("RAW", c1), ("MARK", "c2"), ("RAW", c2)])
     return c, [target, k1, k2]
 
